@@ -107,6 +107,13 @@ class odict(dict):
         if key not in self._keys:
             self._keys.append(key)
 
+    def __reduce__(self):
+        """
+        Pickle as class plus items for every protocol. Protocols 0 and 1 would
+        otherwise bypass __new__ so that _keys never gets created.
+        """
+        return (self.__class__, (self.items(), ))
+
     def __getnewargs__(self):
         """
         Needed to force __new__ which creates _keys.
